@@ -35,6 +35,8 @@ Clauses(r) ==
       [] r.k = "gershs"    -> << <<"gershgorin-scaled=definition", r.out = GershgorinScaledDef(r.A)>> >>
       [] r.k = "specobs"   -> << <<"gershgorin>=rho", r.gersh >= r.rho /\ r.gershS >= r.rhoS>>,
                                  <<"power<=sigma", r.pow <= r.sig + 16 /\ r.powS <= r.sigS + 16>> >>
+      [] r.k = "blockspec" -> << <<"block-gershgorin>=rho", r.gersh >= r.rho /\ r.gershS >= r.rhoS>>,
+                                 <<"block-gershgorin=definition", r.err <= -12000 /\ r.errS <= -12000>> >>
       [] OTHER             -> << <<"unknown-record", FALSE>> >>
 
 Failed(r) == IF Has(r, "e") THEN (IF r.e = "End" THEN <<>> ELSE <<"recorder:" \o r.e>>)
